@@ -4,7 +4,7 @@
     forms together. *)
 From Coq Require Import List ZArith String Ascii Bool Lia.
 From FoVerif Require Import Core.Common Core.CommonProofs Core.Lib Core.MiniFo Core.MiniGo Core.Compile
-  Core.GoRules Core.SimDefs Core.SimLemmas Core.LibSim.
+  Core.GoRules Core.SimDefs Core.SimLemmas Core.EqSim Core.LibSim.
 Import ListNotations.
 Open Scope list_scope.
 
@@ -466,8 +466,9 @@ Proof.
     + cbn. rewrite F. reflexivity.
 Qed.
 
-Hypothesis veq_sim : forall va vb ga gb r,
+Lemma veq_sim' va vb ga gb r :
   vrel va ga -> vrel vb gb -> val_eq va vb = Some r -> gval_eq ga gb = Some r.
+Proof. apply (veq_sim ctor_ok gfuncs va). Qed.
 
 Lemma step_E n : SimE n -> SimEs n -> SimB n -> SimA n -> SimP (S n) -> SimMU (S n) -> SimMS (S n) -> SimBE (S n) ->
   SimE (S n).
@@ -507,7 +508,7 @@ Proof.
     inversion W; subst. sstep H. rb H E1. rb H E2.
     destruct (val_eq v0 v1) as [r|] eqn:Q; inversion H; subst.
     useE IE E1 k g1 G1 V1. useE IE E2 (k + nv e1) g2 G2 V2.
-    pose proof (veq_sim _ _ _ _ _ V1 V2 Q) as Q'.
+    pose proof (veq_sim' _ _ _ _ _ V1 V2 Q) as Q'.
     destruct neg; cbn [compile]; (eexists; split;
       [eapply G_libcall; [eapply Gs_cons; [exact G1|eapply Gs_cons; [exact G2|apply Gs_nil]]|];
        apply Gl_pure; [reflexivity|]; cbn [lib_pure gops veq]; rewrite Q'; reflexivity
